@@ -71,15 +71,25 @@ def tie_forward(ctx):
             k += 1
             square = (g["kH"], g["sH"], g["pH"], g["dH"]) == (g["kW"], g["sW"], g["pW"], g["dW"])
             P = cc.make_payload(rng, op, g, bias=(k % 2 == 0), form="int" if (square or k % 3 == 0) else "tuple",
-                                data="distinct" if k % 2 else "ints", layout=cc.LAYOUTS[(k // 5) % 8])
+                                data=("distinct" if k % 2 else "ints") if not (op.startswith("max") and (k // 5) % 3 == 0) else cc.TIE_KINDS[(k // 15) % 5],
+                                layout=cc.LAYOUTS[(k // 5) % 8], dtypes=cc.DTYPES[(k // 40) % 4])
             obs = _observe(P)
             bag.add(P, cc.term_forward(P, obs), (op,) + cc.descr2(g), cc.nontrivial2(g), cc.oracle_forward(P, obs))
     for g in g1:
         for op in OPS1:
             k += 1
-            P = cc.make_payload(rng, op, g, bias=(k % 2 == 0), data="distinct" if k % 2 else "ints", layout=cc.LAYOUTS[(k // 3) % 8])
+            P = cc.make_payload(rng, op, g, bias=(k % 2 == 0), data="distinct" if k % 2 else "ints", layout=cc.LAYOUTS[(k // 3) % 8],
+                                dtypes=cc.DTYPES[(k // 24) % 4])
             obs = _observe(P)
             bag.add(P, cc.term_forward(P, obs), (op, g["k"], g["s"], g["p"], g["d"], g["W"]), cc.nontrivial1(g), cc.oracle_forward(P, obs))
+    # state kept between calls: geometries seen much earlier in this process are visited again, now with the other dtype
+    n_first = len(bag.payloads)
+    for i in range(0, n_first, 23 if ctx.quick else 11):
+        P = dict(bag.payloads[i])
+        P["dtype"] = "f32" if P.get("dtype", "f64") == "f64" else "f64"
+        P.pop("pre_dtype", None)
+        obs = _observe(P)
+        bag.add(P, cc.term_forward(P, obs), ("revisit", i), True, cc.oracle_forward(P, obs))
     ctx.sample({"forward_case": bag.payloads[7], "implementation_output": cc.tolist(_observe(bag.payloads[7])[1])})
     ctx.extra["forward_geometries"] = {"2d": len(g2), "1d": len(g1)}
     _finish_tie(ctx, bag, "convpool/forward values+shapes", "fwd", lambda P: "nn.functional." + P["op"], lambda P: "forward-value",
